@@ -267,3 +267,54 @@ package table
 //@   ensures dest.knownPathList[0] == newPath || (old(len(dest.knownPathList)) > 0 && dest.knownPathList[0] == old(dest.knownPathList[0]))
 //@   ensures dest.knownPathList[0] == newPath ==> (forall k int :: 0 <= k && k < old(len(dest.knownPathList)) ==> old_specPref(newPath, old(dest.knownPathList[k])))
 //@   ensures dest.knownPathList[0] != newPath ==> old_specPref(dest.knownPathList[0], newPath)
+
+// =============================================================================================
+// C16 — RPKI origin validation implements RFC 6811
+// =============================================================================================
+//@ props C16
+
+//@ func (*ROA).Equal
+//@   requires roa != nil
+//@   pure
+//@   modifies nothing
+//@   ensures result <==> (r.MaxLen == roa.MaxLen && r.Src == roa.Src && r.AS == roa.AS)
+
+// callback of WalkMatch, called once per covering prefix with its bucket of ROAs.
+// from C16: "Valid iff some covering ROA has the route's origin AS ... and a max-length not shorter than the
+// prefix, Invalid iff covering ROAs exist but none matches (AS 0 never matches)": every entry of the bucket
+// goes to exactly one list - Matched iff prefixLen <= MaxLen && AS != 0 && AS == origin, UnmatchedAs iff
+// prefixLen <= MaxLen otherwise, UnmatchedLength iff prefixLen > MaxLen
+//@ func (*ROATable).Validate$1
+//@   requires validation != nil && typeOf(v) == (*roaBucket) && v.(*roaBucket) != nil
+//@   requires forall k int :: 0 <= k && k < len(v.(*roaBucket).entries) ==> v.(*roaBucket).entries[k] != nil
+//@   claims bounds assert post step inv-init inv-keep
+//@   loop 0 invariant bucket != nil && bucket == v.(*roaBucket) && validation != nil
+//@   loop 0 step len(validation.Matched) == header(len(validation.Matched)) + (prefixLen <= int(r.MaxLen) && r.AS != 0 && r.AS == as ? 1 : 0)
+//@   loop 0 step len(validation.UnmatchedAs) == header(len(validation.UnmatchedAs)) + (prefixLen <= int(r.MaxLen) && !(r.AS != 0 && r.AS == as) ? 1 : 0)
+//@   loop 0 step len(validation.UnmatchedLength) == header(len(validation.UnmatchedLength)) + (prefixLen > int(r.MaxLen) ? 1 : 0)
+//@   ensures result
+
+//@ func (*Path).GetFamily
+//@   pure
+//@   spec-only
+//@ func (*Path).IsEOR
+//@   pure
+//@   spec-only
+//@ func (*Path).OriginInfo
+//@   pure
+//@   spec-only
+//@ func nlriToIPNet
+//@   pure
+//@   spec-only
+
+// from C16: the verdict from the three lists; "paths ending in an AS_SET reported NotFound"; origin AS is
+// the local AS for an empty or confederation-only path
+//@ func (*ROATable).Validate
+//@   requires rt != nil && path != nil
+//@   claims post at-call
+//@   at-call tree.WalkMatch( requires (asPath == nil || len(asPath.Value) == 0) ==> as == ownAs
+//@   at-call tree.WalkMatch( requires asPath != nil && len(asPath.Value) > 0 && (asPath.Value[len(asPath.Value)-1].GetType() == bgp.BGP_ASPATH_ATTR_TYPE_CONFED_SEQ || asPath.Value[len(asPath.Value)-1].GetType() == bgp.BGP_ASPATH_ATTR_TYPE_CONFED_SET) ==> as == ownAs
+//@   at-call tree.WalkMatch( requires asPath != nil && len(asPath.Value) > 0 ==> asPath.Value[len(asPath.Value)-1].GetType() != bgp.BGP_ASPATH_ATTR_TYPE_SET
+//@   ensures result != nil ==> (result.Status == oc.RPKI_VALIDATION_RESULT_TYPE_VALID <==> len(result.Matched) != 0)
+//@   ensures result != nil ==> (result.Status == oc.RPKI_VALIDATION_RESULT_TYPE_INVALID <==> len(result.Matched) == 0 && (len(result.UnmatchedAs) != 0 || len(result.UnmatchedLength) != 0))
+//@   ensures result != nil ==> (result.Status == oc.RPKI_VALIDATION_RESULT_TYPE_NOT_FOUND <==> len(result.Matched) == 0 && len(result.UnmatchedAs) == 0 && len(result.UnmatchedLength) == 0)
